@@ -303,6 +303,19 @@ func sampleCall(rng *rand.Rand, mode Mode) Call {
 	return c
 }
 
+// SampleScenario draws one scenario (exported for the self-test).
+func SampleScenario(rng *rand.Rand, mode Mode, i int, thorough bool) Scenario {
+	return sampleScenario(rng, mode, i, thorough)
+}
+
+// Fingerprint renders everything a run observed except wall-clock and process-cumulative counters.
+func Fingerprint(r *Result) string {
+	c := *r
+	c.WallMS, c.PoolReused, c.PoolPoison = 0, 0, 0
+	b, _ := json.Marshal(c)
+	return string(b)
+}
+
 func sampleScenario(rng *rand.Rand, mode Mode, i int, thorough bool) Scenario {
 	sc := Scenario{
 		ID:                 fmt.Sprintf("%s#%d", []string{"c19", "c01clean", "c01fault", "c15"}[mode], i),
